@@ -256,6 +256,54 @@ def side_effect_cases():
     return out
 
 
+DROP_ITEMS = ("use std::sync::atomic::{AtomicU32, Ordering::SeqCst}; static D: AtomicU32 = AtomicU32::new(0); "
+              "#[derive(Debug)] struct Dc(u32); impl Drop for Dc { fn drop(&mut self) { D.fetch_add(1, SeqCst); } } ")
+
+
+def drop_cases():
+    """Values that own a resource: a macro call must consume (and drop) exactly what the std method consumes - the
+    result's tag is compared and so is the number of destructors that have run once the result is dropped too."""
+    S, N = "Some(Dc(1))", "None::<Dc>"
+    O, E = "Ok::<Dc, Dc>(Dc(1))", "Err::<Dc, Dc>(Dc(3))"
+    rows = []
+    for recv in (S, N):
+        made = 1 if recv == S else 0
+        rows += [
+            ("option", "unwrap_or", recv, ", Dc(2)", ".unwrap_or(Dc(2))", made + 1),
+            ("option", "unwrap_or_else", recv, ", || Dc(2)", ".unwrap_or_else(|| Dc(2))", 1),
+            ("option", "ok_or", recv, ", Dc(2)", ".ok_or(Dc(2))", made + 1),
+            ("option", "ok_or_else", recv, ", || Dc(2)", ".ok_or_else(|| Dc(2))", 1),
+            ("option", "map", recv, ", |x| Dc(x.0 + 10)", ".map(|x| Dc(x.0 + 10))", 2 * made),
+            ("option", "and_then", recv, ", |x| Some(Dc(x.0 + 10))", ".and_then(|x| Some(Dc(x.0 + 10)))", 2 * made),
+            ("option", "and_then", recv, ", |x| None::<Dc>", ".and_then(|x| None::<Dc>)", made),
+            ("option", "or_else", recv, ", || Some(Dc(2))", ".or_else(|| Some(Dc(2)))", 1),
+            ("option", "filter", recv, ", |x| x.0 == 1", ".filter(|x| x.0 == 1)", made),
+            ("option", "filter", recv, ", |x| x.0 == 7", ".filter(|x| x.0 == 7)", made),
+        ]
+    for recv, made in (("Some(Some(Dc(1)))", 1), ("Some(None::<Dc>)", 0), ("None::<Option<Dc>>", 0)):
+        rows.append(("option", "flatten", recv, "", ".flatten()", made))
+    for recv in (O, E):
+        ok = recv == O
+        rows += [
+            ("result", "unwrap_or", recv, ", Dc(2)", ".unwrap_or(Dc(2))", 2),
+            ("result", "unwrap_or_else", recv, ", |e| Dc(e.0 + 10)", ".unwrap_or_else(|e| Dc(e.0 + 10))", 1 if ok else 2),
+            ("result", "ok", recv, "", ".ok()", 1),
+            ("result", "err", recv, "", ".err()", 1),
+            ("result", "map", recv, ", |x| Dc(x.0 + 10)", ".map(|x| Dc(x.0 + 10))", 2 if ok else 1),
+            ("result", "map_err", recv, ", |x| Dc(x.0 + 10)", ".map_err(|x| Dc(x.0 + 10))", 1 if ok else 2),
+            ("result", "and_then", recv, ", |x| Ok::<Dc, Dc>(Dc(x.0 + 10))", ".and_then(|x| Ok::<Dc, Dc>(Dc(x.0 + 10)))", 2 if ok else 1),
+            ("result", "or_else", recv, ", |e| Err::<Dc, Dc>(Dc(e.0 + 10))", ".or_else(|e| Err::<Dc, Dc>(Dc(e.0 + 10)))", 1 if ok else 2),
+        ]
+    out = []
+    for fam, mac, recv, rest, stdcall, drops in rows:
+        body = (DROP_ITEMS + "let k = { let r = konst::%s::%s!(%s%s); format!(\"{:?}\", r) }; let kd = D.swap(0, SeqCst); "
+                "let s = { let r = (%s)%s; format!(\"{:?}\", r) }; let sd = D.swap(0, SeqCst); "
+                "format!(\"{} {} {} {}\", k == s, kd, sd, %d)" % (fam, mac, recv, rest, recv, stdcall, drops))
+        out.append((body, "true %d %d %d" % (drops, drops, drops),
+                    {"m": "OptRes", "mac": "%s::%s!(owning values)" % (fam, mac), "recv": recv, "args": rest}))
+    return out
+
+
 def try_cases():
     out = []
     for v in ("Ok::<u32, u8>(5)", "Err::<u32, u8>(9)"):
